@@ -615,3 +615,244 @@ func c18r9(rc *core.RC) {
 		rc.Unknown("encoder/indent-and-write", token.NoPos, "no function that calls doIndent and writes to the caller's buffer found")
 	}
 }
+
+// ---- C05.R10 / C18.R10 bytes a Decoder consumes in front of a value ----
+
+// prepareConsumed folds the byte dispatch of (*Stream).PrepareForDecode: for each of the 256 byte values, does the
+// clause that handles it advance the cursor (the byte is consumed before the value decoder starts) and does it go on
+// looking (continue) or hand over to the value decoder (return)?
+func prepareConsumed(rc *core.RC) (skipped, stepped []int, pos token.Pos, ok bool) {
+	p := rc.P
+	fd := p.Func("decoder", "Stream.PrepareForDecode")
+	if fd == nil || fd.Body == nil {
+		return nil, nil, token.NoPos, false
+	}
+	rc.Touch(p.FuncName(fd))
+	info := p.Info(fd)
+	var bs *core.ByteSwitch
+	ast.Inspect(fd.Body, func(m ast.Node) bool {
+		if sw, isSw := m.(*ast.SwitchStmt); isSw && bs == nil {
+			if b, exact := core.EvalByteSwitch(info, sw); b != nil && exact {
+				bs = b
+			}
+		}
+		return true
+	})
+	if bs == nil {
+		return nil, nil, fd.Pos(), false
+	}
+	for b := 0; b < 256; b++ {
+		ci := bs.Of[b]
+		if ci < 0 {
+			continue
+		}
+		adv, cont := false, false
+		for _, st := range bs.Clauses[ci].Body {
+			ast.Inspect(st, func(m ast.Node) bool {
+				switch x := m.(type) {
+				case *ast.IncDecStmt:
+					if x.Tok == token.INC && isStreamCursor(info, x.X) {
+						adv = true
+					}
+				case *ast.AssignStmt:
+					if len(x.Lhs) == 1 && isStreamCursor(info, x.Lhs[0]) {
+						adv = true
+					}
+				case *ast.BranchStmt:
+					if x.Tok == token.CONTINUE {
+						cont = true
+					}
+				}
+				return true
+			})
+		}
+		if !adv {
+			continue
+		}
+		if cont {
+			skipped = append(skipped, b)
+		} else {
+			stepped = append(stepped, b)
+		}
+	}
+	return skipped, stepped, bs.Stmt.Pos(), true
+}
+
+// C05.R10: a JSON text begins with white space or a value. What the Decoder consumes before it starts the value
+// decoder must be white space only.
+func c05r10(rc *core.RC) {
+	skipped, stepped, pos, ok := prepareConsumed(rc)
+	key := "decoder.(*Stream).PrepareForDecode/consumed-before-value"
+	if !ok {
+		rc.Unknown(key, pos, "PrepareForDecode or its byte dispatch not found")
+		return
+	}
+	want := []int{'\t', '\n', '\r', ' '}
+	sort.Ints(skipped)
+	rc.Check(fmt.Sprint(skipped) == fmt.Sprint(want), key+"/white-space", pos, "bytes skipped in front of a value: %s (all 256 values evaluated; wanted exactly tab, LF, CR, space)", core.FmtBytes(skipped))
+	if len(stepped) == 0 {
+		rc.OK(key+"/separators", pos, "no other byte is consumed before the value decoder starts")
+		return
+	}
+	rc.Bad(key+"/separators", pos, "Decoder.Decode steps over one %s in front of a value, whatever came before (there is no token state): the texts `,1` and `:1`, and the stream `1,2`, are decoded without an error where encoding/json reports invalid character ',' looking for beginning of value", core.FmtBytes(stepped))
+}
+
+// byteLoopOutcome folds the body of `for _, c := range data { … }` for c == b: "continue", "reject" (return false),
+// "accept" (return true), "stop" (break, or a statement list that cannot be folded ends the loop: ""), "next" (falls
+// off the end of the body).
+func byteLoopOutcome(p *core.Program, info *types.Info, list []ast.Stmt, c types.Object, b int) string {
+	bp := &core.BytePred{P: p}
+	for _, st := range list {
+		switch x := st.(type) {
+		case *ast.BranchStmt:
+			switch x.Tok {
+			case token.CONTINUE:
+				return "continue"
+			case token.BREAK:
+				return "stop"
+			}
+			return ""
+		case *ast.ReturnStmt:
+			if len(x.Results) == 1 {
+				if v := core.ConstValue(info, x.Results[0]); v != nil {
+					if v.String() == "false" {
+						return "reject"
+					}
+					if v.String() == "true" {
+						return "accept"
+					}
+				}
+			}
+			return ""
+		case *ast.IfStmt:
+			if x.Init != nil {
+				return ""
+			}
+			t, ok := bp.EvalBool(info, x.Cond, core.Bind(c, int64(b)))
+			if !ok {
+				return ""
+			}
+			var r string
+			if t {
+				r = byteLoopOutcome(p, info, x.Body.List, c, b)
+			} else if x.Else != nil {
+				switch e := x.Else.(type) {
+				case *ast.BlockStmt:
+					r = byteLoopOutcome(p, info, e.List, c, b)
+				case *ast.IfStmt:
+					r = byteLoopOutcome(p, info, []ast.Stmt{e}, c, b)
+				}
+			} else {
+				r = "next"
+			}
+			if r != "next" {
+				return r
+			}
+		case *ast.SwitchStmt:
+			if x.Init != nil || core.ObjOf(info, x.Tag) != c {
+				return ""
+			}
+			bs, exact := core.EvalByteSwitch(info, x)
+			if bs == nil || !exact {
+				return ""
+			}
+			ci := bs.Of[b]
+			if ci < 0 {
+				continue
+			}
+			r := byteLoopOutcome(p, info, bs.Clauses[ci].Body, c, b)
+			if r == "stop" { // break inside a switch leaves the switch only
+				r = "next"
+			}
+			if r != "next" {
+				return r
+			}
+		default:
+			return ""
+		}
+	}
+	return "next"
+}
+
+// C18.R10: Valid decodes through a Decoder. Every byte the Decoder steps over in front of a value without it being
+// white space has to make Valid false when it is the first byte of the text that is not white space, and Valid must
+// not give a verdict on any other first byte before the Decoder has seen the text.
+func c18r10(rc *core.RC) {
+	p := rc.P
+	skipped, stepped, ppos, ok := prepareConsumed(rc)
+	key := "json.Valid/leading-separator-rejected"
+	fd := p.Func("json", "Valid")
+	if !ok || fd == nil {
+		rc.Unknown(key, ppos, "Valid or PrepareForDecode not found")
+		return
+	}
+	rc.Touch("json.Valid")
+	info := p.Info(fd)
+	if len(stepped) == 0 {
+		rc.OK(key, fd.Pos(), "the Decoder consumes nothing but white space in front of a value: Valid needs no test of its own")
+		return
+	}
+	// the loop over the whole of data that precedes the construction of the Decoder
+	var newDec token.Pos
+	ast.Inspect(fd.Body, func(m ast.Node) bool {
+		if c, isCall := m.(*ast.CallExpr); isCall && !newDec.IsValid() && strings.HasSuffix(core.CalleeName(info, c), "NewDecoder") {
+			newDec = c.Pos()
+		}
+		return true
+	})
+	if !newDec.IsValid() {
+		rc.Unknown(key, fd.Pos(), "Valid does not construct a Decoder: the rule does not know how the text is examined")
+		return
+	}
+	data := fd.Type.Params.List[0].Names[0]
+	var loop *ast.RangeStmt
+	for _, st := range fd.Body.List {
+		if rs, isRange := st.(*ast.RangeStmt); isRange && rs.Pos() < newDec && core.ObjOf(info, rs.X) == info.Defs[data] && rs.Value != nil {
+			loop = rs
+			break
+		}
+	}
+	if loop == nil {
+		rc.Bad(key, fd.Pos(), "the Decoder steps over a leading %s (PrepareForDecode) and Valid does not look at the first byte of the text itself: Valid(`,1`) and Valid(`:1`) are true; encoding/json: false", core.FmtBytes(stepped))
+		return
+	}
+	c := core.ObjOf(info, loop.Value)
+	isIn := func(set []int, b int) bool {
+		for _, x := range set {
+			if x == b {
+				return true
+			}
+		}
+		return false
+	}
+	var bad []string
+	for b := 0; b < 256; b++ {
+		out := byteLoopOutcome(p, info, loop.Body.List, c, b)
+		if out == "" {
+			rc.Unknown(key, loop.Pos(), "the loop over the leading bytes could not be folded for byte %#x", b)
+			return
+		}
+		want := "stop"
+		switch {
+		case isIn(skipped, b):
+			want = "continue"
+		case isIn(stepped, b):
+			want = "reject"
+		}
+		if out == "next" && want == "continue" {
+			out = "continue"
+		}
+		if out != want {
+			bad = append(bad, fmt.Sprintf("%s: %s (wanted %s)", core.FmtBytes([]int{b}), out, want))
+		}
+	}
+	if len(bad) > 6 {
+		bad = append(bad[:6], fmt.Sprintf("… %d more", len(bad)-6))
+	}
+	rc.Check(len(bad) == 0, key, loop.Pos(), "first byte of the text that the Decoder would not skip as white space (%s skipped): %s make Valid false, every other byte is left to the Decoder (all 256 values evaluated)%s", core.FmtBytes(skipped), core.FmtBytes(stepped), func() string {
+		if len(bad) == 0 {
+			return ""
+		}
+		return "; wrong: " + strings.Join(bad, ", ")
+	}())
+}
